@@ -617,6 +617,8 @@ class Interp(object):
     def is_(self, a, b):
         if a is None or b is None:
             return a is None and b is None
+        if isinstance(a, EllipsisV) or isinstance(b, EllipsisV):
+            return a is b
         if isinstance(a, bool) and isinstance(b, bool):
             return a == b
         if isinstance(a, (Seq, SymSeq, NDArr, PDict, Obj, SymDict)) or isinstance(b, (Seq, SymSeq, NDArr, PDict, Obj, SymDict)):
